@@ -1,4 +1,5 @@
 import GqlProofs.Schema.Hyps
+import GqlModel.Schema.Merged
 /-
   Completeness of the loader, part 1: the four maps are built (`buildState` succeeds) for every
   well-formed merged document, and the directive map agrees with the specification's
@@ -14,13 +15,10 @@ open Gql
 
 /- ------------------------------------------------------------------ the hypothesis on the document -/
 
-/-- source-0 (prelude) directive definitions come before every user-written one -/
-def preludeFirstB : List DirectiveDef → Bool
-  | [] => true
-  | d :: rest => (!Spec.userWritten d.pos || rest.all (fun x => Spec.userWritten x.pos)) && preludeFirstB rest
-
 /-- **the document is a merge of the prelude (source 0) followed by user sources**, as
-    `parser.ParseSchemas(append([]*Source{Prelude}, inputs...))` builds it:
+    `parser.ParseSchemas(append([]*Source{Prelude}, inputs...))` builds it (the Boolean form
+    `Spec.mergedB`, GqlModel/Schema/Merged.lean, is what the driver op `merged` evaluates on every
+    document of the harness):
     * `extNotBuiltin` — no extension is marked built in (the prelude has no `extend`);
     * `preludeDirsBuiltin` — the directive definitions of source 0 are among the six the loader knows as
       built in (`include skip deprecated specifiedBy defer oneOf`: true of `validator/imported/prelude.graphql`);
@@ -28,22 +26,34 @@ def preludeFirstB : List DirectiveDef → Bool
 structure MergedDoc (sd : SchemaDoc) : Prop where
   extNotBuiltin : ∀ e ∈ sd.extensions, e.builtIn = false
   preludeDirsBuiltin : ∀ d ∈ sd.directives, Spec.userWritten d.pos = false → builtinDirectiveNames.contains d.name = true
-  preludeFirst : preludeFirstB sd.directives = true
+  preludeFirst : Spec.preludeFirstB sd.directives = true
 
-instance (sd : SchemaDoc) : Decidable (MergedDoc sd) :=
-  decidable_of_iff
-    ((∀ e ∈ sd.extensions, e.builtIn = false) ∧
-     (∀ d ∈ sd.directives, Spec.userWritten d.pos = false → builtinDirectiveNames.contains d.name = true) ∧
-     preludeFirstB sd.directives = true)
-    ⟨fun ⟨a, b, c⟩ => ⟨a, b, c⟩, fun ⟨a, b, c⟩ => ⟨a, b, c⟩⟩
+theorem mergedB_iff (sd : SchemaDoc) : Spec.mergedB sd = true ↔ MergedDoc sd := by
+  simp only [Spec.mergedB, Spec.mergedClauses, List.all_cons, List.all_nil, Bool.and_true, Bool.and_eq_true,
+    List.all_eq_true, Bool.not_eq_true', Bool.or_eq_true]
+  constructor
+  · rintro ⟨a, b, c⟩
+    refine ⟨a, ?_, c⟩
+    intro d hd hu
+    rcases b d hd with h | h
+    · rw [hu] at h; cases h
+    · exact h
+  · rintro ⟨a, b, c⟩
+    refine ⟨a, ?_, c⟩
+    intro d hd
+    cases hu : Spec.userWritten d.pos with
+    | true => exact Or.inl rfl
+    | false => exact Or.inr (b d hd hu)
+
+instance (sd : SchemaDoc) : Decidable (MergedDoc sd) := decidable_of_iff _ (mergedB_iff sd)
 
 /-- the split the ordering gives: prelude part, then user part -/
-theorem preludeFirst_split {l : List DirectiveDef} (h : preludeFirstB l = true) :
+theorem preludeFirst_split {l : List DirectiveDef} (h : Spec.preludeFirstB l = true) :
     ∃ P U, l = P ++ U ∧ (∀ d ∈ P, Spec.userWritten d.pos = false) ∧ (∀ d ∈ U, Spec.userWritten d.pos = true) := by
   induction l with
   | nil => exact ⟨[], [], rfl, by simp, by simp⟩
   | cons d rest ih =>
-    simp only [preludeFirstB, Bool.and_eq_true, Bool.or_eq_true, Bool.not_eq_true', List.all_eq_true] at h
+    simp only [Spec.preludeFirstB, Bool.and_eq_true, Bool.or_eq_true, Bool.not_eq_true', List.all_eq_true] at h
     obtain ⟨h1, h2⟩ := h
     rcases h1 with h1 | h1
     · obtain ⟨P, U, e, hP, hU⟩ := ih h2
@@ -286,14 +296,18 @@ theorem load_declareDirectives_ok_of_wf {sd : SchemaDoc} (h : Spec.uniqueDirecti
 
 /-- **`load_buildState_ok_of_wf`**: the three fallible loops that build the maps (definitions,
     extensions, directive definitions) all pass for a well-formed merged document -/
-theorem load_buildState_ok_of_wf {sd : SchemaDoc} (h : Spec.WellFormed sd) (hm : MergedDoc sd) :
-    ∃ st, buildState sd = .ok st := by
+theorem load_buildState_ok_of {sd : SchemaDoc} (h : Spec.WellFormed sd)
+    (hdirs : ∃ r, declareDirectives sd.directives [] = .ok r) : ∃ st, buildState sd = .ok st := by
   obtain ⟨t1, h1⟩ := load_foldExtensions_ok_of_wf h.extensionKindsMatch
-  obtain ⟨dirs, hd⟩ := load_declareDirectives_ok_of_wf h.uniqueDirectiveNames hm
+  obtain ⟨dirs, hd⟩ := hdirs
   unfold buildState
   rw [load_declareTypes_ok_of_wf h.uniqueTypeNames]
   simp only [h1, hd]
   exact ⟨_, rfl⟩
+
+theorem load_buildState_ok_of_wf {sd : SchemaDoc} (h : Spec.WellFormed sd) (hm : MergedDoc sd) :
+    ∃ st, buildState sd = .ok st :=
+  load_buildState_ok_of h (load_declareDirectives_ok_of_wf h.uniqueDirectiveNames hm)
 
 /- ------------------------------------------------------------------ the directive in force -/
 
